@@ -378,7 +378,9 @@ func runPartA(c *xs.Ctx, r *xs.Result) {
 			break
 		}
 		s := sessionAt(c.Tier, idx)
+		os.Setenv("C15_BLOCK_TIMEOUT_S", "60")
 		again := runSingle(c, s, false)
+		os.Unsetenv("C15_BLOCK_TIMEOUT_S")
 		if again.res == nil {
 			r.Note("re-run of blocked session %d {%s} died: %v", idx, s.String(), again.cr.exitErr)
 			r.Count("a_blocked_rerun_died", 1)
